@@ -108,6 +108,36 @@ fn run<T: Evaluate>(pw: &Piecewise<T>, u: &Unit, idxs: &[usize], kind: &str, cx:
             if folded.len() != all.len() || each.len() != all.len() || rest.len() + 1 != all.len() {
                 got.push(("fold / for_each / collect length", all.len(), None));
             }
+            // one or two outputs pulled with next(), the rest consumed by internal iteration (fold / for_each / last / count)
+            // (sequences of two and three arguments: enough for the cursor to have left the first piece; longer ones only cost time)
+            for j in 1..=(if xs.len() <= 3 { 2usize.min(xs.len()) } else { 0 }) {
+                let mut it = pw.evaluate_v(xs.clone());
+                for _ in 0..j {
+                    let _ = it.next();
+                }
+                let rest = it.fold(Vec::new(), |mut v, y| { v.push(y); v });
+                let mut it = pw.evaluate_v(xs.clone());
+                for _ in 0..j {
+                    let _ = it.next();
+                }
+                let mut each = vec![];
+                it.for_each(|y| each.push(y));
+                let mut it = pw.evaluate_v(xs.clone());
+                for _ in 0..j {
+                    let _ = it.next();
+                }
+                let last = it.last();
+                for k in j..all.len() {
+                    got.push(("some next(), then fold", k, rest.get(k - j).cloned()));
+                    got.push(("some next(), then for_each", k, each.get(k - j).cloned()));
+                }
+                if all.len() > j {
+                    got.push(("some next(), then last()", all.len() - 1, last));
+                }
+                if rest.len() + j != all.len() || each.len() + j != all.len() {
+                    got.push(("some next(), then fold / for_each: length", all.len(), None));
+                }
+            }
             // the size hint must bracket the number of outputs actually produced
             let (lo, hi) = pw.evaluate_v(xs.clone()).size_hint();
             if lo > all.len() || hi.map_or(false, |h| h < all.len()) {
